@@ -106,7 +106,7 @@ Section WR.
   Lemma breach_uuid_loop_pres sc d us : forall t inv, P t -> pres P (breach_uuid_loop sc d us t inv).
   Proof.
     induction us as [|uuid us IH]; intros t inv H; cbn [breach_uuid_loop]; [first [exact I|exact H]|].
-    destruct (find_app (db_apps t) uuid) as [a|]; [|first [exact I|exact H]].
+    destruct (find_app (db_apps t) uuid) as [a|]; [|apply IH; first [exact I|exact H]].
     destruct (decrypt (a_blob a) d) as [p|]; [|apply IH; first [exact I|exact H]].
     apply pres_bind; [apply handle_breach_pres; first [exact I|exact H]|].
     intros s t1 H1. apply IH. first [exact I|exact H1].
@@ -264,7 +264,8 @@ Section All.
   Proof.
     intros H. unfold w_store_triggered.
     destruct (decrypt (a_blob a) d) as [p|].
-    - apply pres_bind; [apply store_appointment_pres; first [exact I|exact H]|].
+    - destruct (w_store_ok t a); [|first [exact I|exact H]].
+      apply pres_bind; [apply store_appointment_pres; first [exact I|exact H]|].
       intros _ t1 H1. apply pres_bind; [apply (handle_breach_pres P HS); first [exact I|exact H1]|].
       intros s t2 H2. destruct (status_rejected s); [apply (delete_pres P HS); first [exact I|exact H2]|first [exact I|exact H2]].
     - destruct (find_app (db_apps t) (app_uuid a)); [apply (delete_pres P HS); first [exact I|exact H]|first [exact I|exact H]].
@@ -281,7 +282,7 @@ Section All.
     intros charged t1 H1. destruct charged as [av|]; [|first [exact I|exact H1]].
     apply pres_bind.
     - destruct (ti_get (w_cache t1) loc); [apply store_triggered_pres|apply store_appointment_pres]; first [exact I|exact H1].
-    - intros _ t2 H2. first [exact I|exact H2].
+    - intros _ t2 H2. match goal with |- context [if ?c then _ else _] => destruct c end; first [exact I|exact H2].
   Qed.
 
   (* every operation that returns normally preserves a predicate stable under the primitives *)
@@ -300,12 +301,12 @@ Section All.
     - apply wrap_pres; [intros; exact I|apply add_appointment_pres; exact Hf].
     - apply wrap_pres; [intros; exact I|]. unfold w_get_appointment.
       destruct (authenticate (set_rpc_log t []) signer) as [u|]; [|exact Hf].
-      destruct (gk_get (set_rpc_log t []) u) as [ui|]; [|exact I].
+      destruct (gk_get (set_rpc_log t []) u) as [ui|]; [|exact Hf].
       destruct (N.leb (u_expiry ui) (gk_height (set_rpc_log t []))); [exact Hf|].
       destruct (find_trk (db_trks (set_rpc_log t [])) (loc, u)), (find_app (db_apps (set_rpc_log t [])) (loc, u)); exact Hf.
     - apply wrap_pres; [intros; exact I|]. unfold w_get_subscription_info.
       destruct (authenticate (set_rpc_log t []) signer) as [u|]; [|exact Hf].
-      destruct (gk_get (set_rpc_log t []) u) as [ui|]; [|exact I].
+      destruct (gk_get (set_rpc_log t []) u) as [ui|]; [|exact Hf].
       destruct (N.leb (u_expiry ui) (gk_height (set_rpc_log t []))); exact Hf.
     - apply wrap_pres; [intros; exact I|].
       apply (run_listeners_pres P (listener_connected le sc hash txs (gk_height (set_rpc_log t []) + 1))
